@@ -15,6 +15,7 @@ import MinizProof.Lemmas.Finite
 import MinizProof.Props.C02
 import MinizProof.Props.C03
 import MinizProof.Lemmas.EncDynamic
+import MinizProof.Lemmas.EncStored
 import MinizProof.Lemmas.DeflRle
 set_option maxRecDepth 1000000
 open Fin'
@@ -179,10 +180,12 @@ theorem canonical_code_round_trip (lens : Array Nat) (data : Array UInt8) (pos s
   canonical_code_is_decoded lens data pos s r hs hk h1 h15 hbits
 
 open Model.Core in
-/-- the blocks an encoder may write: static-Huffman, or dynamic-Huffman with a well-formed header -/
+/-- the blocks an encoder may write: static-Huffman, dynamic-Huffman with a well-formed header, or
+    stored (up to 65535 bytes, zero padding to the byte boundary) -/
 inductive StdBlock : EncBlock → Prop
   | static (final : Bool) (toks : List SymTok) : StdBlock (encStatic final toks)
   | dynamic (final : Bool) (h : DynHdr) (toks : List SymTok) : h.Ok → StdBlock (encDynamic final h toks)
+  | stored (final : Bool) (bytes : List Nat) : bytes.length ≤ 65535 → (∀ b ∈ bytes, b < 256) → StdBlock (encStored final bytes)
 
 open Model.Core in
 /-- a well-formed stream of such blocks: tokens expressible with the block's codes, every match
@@ -194,16 +197,20 @@ def StreamOk (maxDist : Nat) : Array UInt8 → List EncBlock → Prop
       StreamOk maxDist (expandToks #[] out b.toks) (b' :: rest)
 
 open Model.Core in
-theorem StdBlock.decodes {b : EncBlock} (h : StdBlock b) (maxDist : Nat) : b.Decodes #[] maxDist ∧ b.bits ≠ [] := by
+theorem StdBlock.decodes {b : EncBlock} (h : StdBlock b) (maxDist : Nat) : b.Decodes #[] maxDist ∧ ∀ p, b.bits p ≠ [] := by
   cases h with
   | static final toks =>
-    refine ⟨encStatic_decodes #[] maxDist final toks, fun hh => ?_⟩
+    refine ⟨encStatic_decodes #[] maxDist final toks, fun p hh => ?_⟩
     have := congrArg List.length hh
     simp [encStatic, bitsLE_length] at this
   | dynamic final hd toks hok =>
-    refine ⟨encDynamic_decodes #[] maxDist final hd hok toks, fun hh => ?_⟩
+    refine ⟨encDynamic_decodes #[] maxDist final hd hok toks, fun p hh => ?_⟩
     have := congrArg List.length hh
     simp [encDynamic, bitsLE_length] at this
+  | stored final bytes hl hb =>
+    refine ⟨encStored_decodes #[] maxDist final bytes hl hb, fun p hh => ?_⟩
+    have := congrArg List.length hh
+    simp [encStored, bitsLE_length] at this
 
 open Model.Core in
 theorem StreamOk.blocksOk (maxDist : Nat) : ∀ (bs : List EncBlock) (out : Array UInt8), StreamOk maxDist out bs →
@@ -223,14 +230,14 @@ theorem StreamOk.blocksOk (maxDist : Nat) : ∀ (bs : List EncBlock) (out : Arra
 
 open Model.Core Spec in
 /-- THE REFERENCE DECODER INVERTS THE ENCODER SPECIFICATION: a byte string that holds, from its first
-    bit, the bits of any well-formed sequence of static and dynamic blocks — any tokens, any valid
+    bit, the bits of any well-formed sequence of static, dynamic and stored blocks — any tokens, any valid
     code lengths, any run-length coding of them in the header — is accepted by `Spec.inflateSpec`
     with exactly the LZ77 expansion of the tokens as its plaintext and exactly those bits consumed,
     whatever follows. -/
 theorem deflate_encoding_round_trip (maxDist : Nat) (data : Array UInt8) (bs : List EncBlock)
-    (hok : StreamOk maxDist #[] bs) (h : HasBits data 0 (blocksBits bs)) :
+    (hok : StreamOk maxDist #[] bs) (h : HasBits data 0 (blocksBits 0 bs)) :
     ∃ res, inflateSpec #[] maxDist data 0 = .accept res ∧ res.out = expandBlocks #[] #[] bs ∧
-      res.bitsUsed = (blocksBits bs).length :=
+      res.bitsUsed = (blocksBits 0 bs).length :=
   inflateSpec_enc maxDist data bs (hok.blocksOk maxDist bs #[]) h
 
 open Model.Core Spec in
@@ -240,11 +247,11 @@ open Model.Core Spec in
 theorem decoder_model_decodes_every_conforming_encoding (data out : Array UInt8) (budget flags : Nat) (bs : List EncBlock)
     (hflat : hasFlag flags fNonWrapping = true) (hz : hasFlag flags fParseZlib = false)
     (hstop : hasFlag flags fStopOnBlockBoundary = false)
-    (hok : StreamOk 32768 #[] bs) (h : HasBits data 0 (blocksBits bs))
+    (hok : StreamOk 32768 #[] bs) (h : HasBits data 0 (blocksBits 0 bs))
     (hroom : (expandBlocks #[] #[] bs).size ≤ min budget out.size) :
     (decompress {} data out 0 budget flags).status = stDone ∧
     (decompress {} data out 0 budget flags).written = (expandBlocks #[] #[] bs).size ∧
-    (decompress {} data out 0 budget flags).consumed = ((blocksBits bs).length + 7) / 8 ∧
+    (decompress {} data out 0 budget flags).consumed = ((blocksBits 0 bs).length + 7) / 8 ∧
     (∀ i, i < (expandBlocks #[] #[] bs).size →
       (decompress {} data out 0 budget flags).out[i]? = (expandBlocks #[] #[] bs)[i]?) := by
   obtain ⟨res, hacc, hout, hbits⟩ := deflate_encoding_round_trip 32768 data bs hok h
@@ -256,12 +263,12 @@ theorem decoder_model_decodes_every_conforming_encoding (data out : Array UInt8)
 
 -- non-vacuity: a final static block "a", then a match of length 4 at distance 1; 4b 04 01 00 holds its bits
 open Model.Core in
-example : HasBits #[0x4b, 0x04, 0x01, 0x00] 0 (blocksBits [encStatic true [.lit 97, .copy 258 0 0 0]]) := by
+example : HasBits #[0x4b, 0x04, 0x01, 0x00] 0 (blocksBits 0 [encStatic true [.lit 97, .copy 258 0 0 0]]) := by
   intro i hi
-  have hlen : (blocksBits [encStatic true [.lit 97, .copy 258 0 0 0]]).length = 30 := by decide +kernel
+  have hlen : (blocksBits 0 [encStatic true [.lit 97, .copy 258 0 0 0]]).length = 30 := by decide +kernel
   rw [hlen] at hi
   have : ∀ j, j < 30 → Spec.bitAt #[0x4b, 0x04, 0x01, 0x00] (0 + j) =
-      some ((blocksBits [encStatic true [SymTok.lit 97, SymTok.copy 258 0 0 0]]).getD j 0) := by decide +kernel
+      some ((blocksBits 0 [encStatic true [SymTok.lit 97, SymTok.copy 258 0 0 0]]).getD j 0) := by decide +kernel
   exact this i hi
 
 /-! ### The compressor's code-length packing (`start_dynamic_block`), modelled and proved
@@ -290,6 +297,24 @@ theorem packed_code_lengths_are_read_back (lens : List Nat) (h15 : ∀ l ∈ len
     Spec.readLens (Spec.mkCode clens) data lens.length fuel pos #[] =
       .accept (pos + (encCSyms clens (rlePack lens)).length, lens.toArray) :=
   packed_lens_round_trip lens h15 clens hc hcodes data fuel pos hf h
+
+open Model.Core Model.Rle in
+/-- THE DYNAMIC BLOCK THE MODEL OF `start_dynamic_block` WRITES IS A CONFORMING BLOCK — for every output
+    of a Huffman builder that delivers usable codes (257..286 literal/length and 1..30 distance code
+    sizes ≤ 15, valid as codes, end-of-block coded; 19 code-length-code sizes below 8, valid, with a
+    code for every symbol the packer used): the header (HLIT, HDIST, HCLEN with trailing zero entries
+    implied, the packed code sizes) followed by any well-formed tokens is one of the blocks of the
+    encoder specification, so `deflate_encoding_round_trip` and everything after it applies to it. -/
+theorem dynamic_block_of_the_model_is_conforming (final : Bool) (litLens distLens clens : Array Nat) (toks : List SymTok)
+    (hl : 257 ≤ litLens.size ∧ litLens.size ≤ 286) (hd : 1 ≤ distLens.size ∧ distLens.size ≤ 30)
+    (h15 : ∀ l ∈ litLens.toList ++ distLens.toList, l ≤ 15)
+    (hcs : clens.size = 19) (hc8 : ∀ i, clens.getD i 0 < 8)
+    (hcv : Spec.codeValid .clen clens = true)
+    (hcodes : ∀ c ∈ rlePack (litLens.toList ++ distLens.toList), 1 ≤ clens.getD c.sym 0)
+    (hlv : Spec.codeValid .litlen litLens = true) (hdv : Spec.codeValid .dist distLens = true)
+    (heob : 1 ≤ litLens.getD 256 0) :
+    StdBlock (encDynamic final (header litLens distLens clens) toks) :=
+  .dynamic final _ toks (model_header_ok litLens distLens clens hl hd h15 hcs hc8 hcv hcodes hlv hdv heob)
 
 -- the packer on a list with a long zero run, a run of equal sizes and a short tail
 open Model.Core Model.Rle in
